@@ -70,6 +70,8 @@ func runOneCase(c *core.Ctx, r *rand.Rand, i int) {
 			bigDictCase(c, 33000, true)
 		case i == 9:
 			witnessParkedMore(c)
+		case i == 10:
+			fullBlockDictCase(c, r)
 		case c.Tier == "thorough" && i >= 12 && i <= 16:
 			bigDictCase(c, []int{32767, 32768, 32769, 40000, 70000}[i-12], i != 16)
 		case i%7 == 0:
